@@ -43,9 +43,13 @@ def mk(pkg, rank, linear):
             return linear
         if sc is not None and sc[0] == "un" and c == sc[2]:
             return not linear
-        if c[0] == "cmp" and c[1] == "==" and is_const(c[3]):
-            if c[2] == ("call", "builtins.len", (("attr", COND, "shape"),), ()):
-                return c[3][1] == rank
+        if c[0] == "cmp" and c[2] in (("call", "builtins.len", (("attr", COND, "shape"),), ()), ("attr", COND, "ndim")):
+            rhs = c[3]
+            if is_const(rhs) and isinstance(rhs[1], int):
+                return {"==": rank == rhs[1], "!=": rank != rhs[1], "<": rank < rhs[1], "<=": rank <= rhs[1], ">": rank > rhs[1], ">=": rank >= rhs[1]}.get(c[1])
+            if c[1] in ("in", "not in") and rhs[0] in ("tuple", "list", "set") and all(is_const(x) for x in rhs[1]):
+                r = rank in [x[1] for x in rhs[1]]
+                return r if c[1] == "in" else not r
         return None
     return interp(pkg, FN, assume=assume)
 
@@ -148,6 +152,9 @@ def check_arm(run, pkg, rank, linear, arm):
     acc = [e for e in stores(it) if any(x == COND for x in walk(e.data["value"]))]
     whole = [e for e in it.events if e.kind == "assign" and e.data["name"] and any(x == COND for x in walk(e.data["value"])) and product_of(e.data["value"])]
     loc = fi.loc()
+    if len(acc) + len(whole) != 1 or (not acc and product_of(whole[0].data["value"]) is None) or (not acc and frame_of(strip_conj(product_of(whole[0].data["value"])[0])[0])[0] is None):
+        if symbolic_arm(run, it, rank, linear, arm):
+            return
     if len(acc) + len(whole) != 1:
         run.ob("R-SIB", fq, f"{arm}:statement", None, "one accumulation statement per arm", f"{len(acc)} stores, {len(whole)} whole-array forms", loc=loc)
         return
@@ -287,6 +294,80 @@ def check_arm(run, pkg, rank, linear, arm):
                         okd = False
                 run.ob("R-LOOPDOM", fq, f"{arm}:average", okd, "accumulated sums are divided by the counts after the loops", f"{len(div)} divisions",
                        witness=None if okd else "sum over origins not turned into an average: long lags weighted less", loc=loc, sound=True)
+
+
+def symbolic_arm(run, it, rank, linear, arm) -> bool:
+    """Whole-array form of an arm (no accumulation loop): the extracted expression for the un-normalised correlation is
+    evaluated on an array of distinct exact complex symbols of shape T=3, N=2(, d=2(, d=2)) and compared entry by entry, as
+    polynomials, with the definition.  Exact for that shape; the forms involved (dot / tensordot / einsum / sum / conj / real)
+    are uniform in the extents."""
+    import numpy as np
+    import sympy as sp
+    from ..concrete import ev as cev, symbolic_array, Unsupported
+    fi = it.fi
+    fq = short(fi.qual)
+    norm = [e for e in it.events if e.kind == "aug" and e.data["op"] == "/" and not e.loops and eqv(e.data["value"], ("sub", e.data["old"], C(0))) is True]
+    if len(norm) != 1:
+        return False
+    pre = norm[0].data["old"]
+    if not any(x == COND for x in walk(pre)) or any(x[0] in ("mu", "loopvar", "phi") for x in walk(pre)):
+        return False
+    # an array that is (also) filled by element stores is not a whole-array form: its term does not show the stored values
+    from ..vg import strip_alloc as _sa
+    stored_bases = {_sa(e.data["target"][1]) for e in stores(it) if e.data["target"][0] == "sub"}
+    if any(_sa(x) in stored_bases for x in walk(pre)):
+        return False
+    T, N, d = 3, 2, 2
+    shape = {2: (T, N), 3: (T, N, d), 4: (T, N, d, d)}[rank]
+    c = symbolic_array(shape, "c")
+    env = {COND: c, T_: T, ("attr", COND, "shape"): shape}
+    try:
+        got = np.asarray(cev(strip_alloc_(pre), env), dtype=object).ravel()
+    except Exception as e:  # noqa
+        run.ob("R-SIB", fq, f"{arm}:whole-array", None, "whole-array form evaluated on exact symbols", f"not evaluable: {type(e).__name__}: {str(e)[:80]} in {show(pre)[:80]}", loc=loc_of(it, norm[0]))
+        return True
+
+    def S_(n, o):
+        if rank == 4:
+            return sum(sp.Matrix(c[n, i].tolist()).multiply(sp.Matrix(c[o, i].tolist()).conjugate()).trace() for i in range(N))
+        return sum(x * sp.conjugate(y) for x, y in zip(c[n].ravel(), c[o].ravel()))
+    if linear:
+        ref = [sum(sp.re(sp.expand(S_(o + k, o))) for o in range(T - k)) / (T - k) for k in range(T)]
+    else:
+        ref = [sp.re(sp.expand(S_(k, 0))) for k in range(T)]
+    if got.shape != (T,):
+        run.ob("R-SIB", fq, f"{arm}:whole-array", False, "one correlation value per frame", f"shape {got.shape}", witness=f"T={T}: {got.shape[0] if got.shape else 0} values", loc=loc_of(it, norm[0]), sound=True)
+        return True
+    bad = None
+    for k in range(T):
+        dlt = sp.expand(sp.sympify(got[k]) - ref[k])
+        if dlt != 0:
+            bad = (k, dlt)
+            break
+    if bad is None:
+        run.ob("R-SIB", fq, f"{arm}:whole-array", True, f"un-normalised correlation equals Re sum A(t) conj(A(origin)) {'averaged over all origins' if linear else 'with the first frame as the only origin'} "
+               f"- decided exactly on symbolic arrays of shape {shape}", show(pre)[:100], loc=loc_of(it, norm[0]))
+    else:
+        k, dlt = bad
+        # a concrete series on which the two differ
+        import random
+        rnd = random.Random(5)
+        subs_ = {s_: sp.Rational(rnd.randint(-3, 3)) for s_ in dlt.free_symbols}
+        val = dlt.subs(subs_)
+        tries = 0
+        while val == 0 and tries < 20:
+            subs_ = {s_: sp.Rational(rnd.randint(-5, 5)) for s_ in dlt.free_symbols}
+            val = dlt.subs(subs_)
+            tries += 1
+        run.ob("R-SIB", fq, f"{arm}:whole-array", False, f"un-normalised correlation equals Re sum A(t) conj(A(origin)) ({'all origins' if linear else 'first frame only'})",
+               f"lag {k}: code - definition = {sp.sstr(dlt)[:160]}", witness=f"series of shape {shape} with entries { {str(a): str(b) for a, b in list(subs_.items())[:6]} }: lag {k} differs by {val}",
+               loc=loc_of(it, norm[0]), sound=True)
+    return True
+
+
+def strip_alloc_(t):
+    from ..vg import strip_alloc
+    return strip_alloc(t)
 
 
 def check_common(run, pkg):
